@@ -22,6 +22,7 @@ const PS_ABS_MASK: __m128 = m128_from_u32x4([0x7fffffff; 4]);
 const PS_INV_SIGN_MASK: __m128 = m128_from_u32x4([!0x8000_0000; 4]);
 const PS_SIGN_MASK: __m128 = m128_from_u32x4([0x8000_0000; 4]);
 const PS_NO_FRACTION: __m128 = m128_from_f32x4([8388608.0; 4]);
+const PS_ALMOST_HALF: __m128 = m128_from_u32x4([0x3eff_ffff; 4]);
 const PS_NEGATIVE_ZERO: __m128 = m128_from_u32x4([0x8000_0000; 4]);
 const PS_PI: __m128 = m128_from_f32x4([core::f32::consts::PI; 4]);
 const PS_HALF_PI: __m128 = m128_from_f32x4([core::f32::consts::FRAC_PI_2; 4]);
@@ -146,16 +147,11 @@ pub(crate) unsafe fn m128_neg_mul_sub(a: __m128, b: __m128, c: __m128) -> __m128
 
 #[inline]
 pub(crate) unsafe fn m128_round(v: __m128) -> __m128 {
-    // Based on https://github.com/microsoft/DirectXMath `XMVectorRound`
+    // Round half away from zero like `f32::round`: truncate `v + copysign(0.49999997, v)`, where
+    // the constant is the largest float below 0.5 so that values just under a half do not round up.
     let sign = _mm_and_ps(v, PS_SIGN_MASK);
-    let s_magic = _mm_or_ps(PS_NO_FRACTION, sign);
-    let r1 = _mm_add_ps(v, s_magic);
-    let r1 = _mm_sub_ps(r1, s_magic);
-    let r2 = _mm_and_ps(v, PS_INV_SIGN_MASK);
-    let mask = _mm_cmple_ps(r2, PS_NO_FRACTION);
-    let r2 = _mm_andnot_ps(mask, v);
-    let r1 = _mm_and_ps(r1, mask);
-    _mm_xor_ps(r1, r2)
+    let almost_half = _mm_or_ps(PS_ALMOST_HALF, sign);
+    m128_trunc(_mm_add_ps(v, almost_half))
 }
 
 #[inline]
